@@ -16,6 +16,9 @@ def main():
     pid = a.pid.upper()
     if a.tier == "thorough":
         os.environ.setdefault("VERIF_CROSS", "6")      # per process: cvc5 re-checks the first non-trivial z3 verdicts
+        # wall-time budget of each parallel map and limit per task; what is not reached is reported as not explored
+        os.environ.setdefault("VERIF_BUDGET_S", "900")
+        os.environ.setdefault("VERIF_TASK_TIMEOUT_S", "240")
     scratch = tempfile.mkdtemp(prefix="vcheck-%s-" % pid)
     os.environ["VCHECK_SCRATCH"] = scratch
     os.chdir(scratch)
